@@ -54,8 +54,8 @@ FormatListLists == {<<S(f)>> \o al : f \in {<<"%", "s">>, <<"%", "s", "-", "%", 
                                       al \in {<<>>} \cup {<<x>> : x \in FLArgs} \cup {<<x, y>> : x \in FLArgs, y \in FLArgs}}
 
 \* ---- CSV tables
-CsvHdrs == {<<"a">>, <<"a", ",", "b">>, <<"b", ",", "a">>, <<"a", ",", "a">>, <<"a", ",", "b", ",", "c">>, <<>>}
-CsvRows == {<<"1">>, <<"1", ",", "0">>, <<"x", " ", ",", "b", "acute">>, <<",">>, <<"1", ",", "0", ",", "1">>, <<"a", "b">>}
+CsvHdrs == {<<"a", ",", " ", "b">>, <<" ", "a">>, <<"a", "b", ",", "c">>, <<"a">>, <<"a", ",", "b">>, <<"b", ",", "a">>, <<"a", ",", "a">>, <<"a", ",", "b", ",", "c">>, <<>>}
+CsvRows == {<<"1", ",", " ", "0">>, <<"1">>, <<"1", ",", "0">>, <<"x", " ", ",", "b", "acute">>, <<",">>, <<"1", ",", "0", ",", "1">>, <<"a", "b">>}
 CsvNL == {<<"LF">>, <<"CR", "LF">>}
 CsvTexts == {h : h \in CsvHdrs} \cup {h \o nl : h \in CsvHdrs, nl \in CsvNL}
             \cup {h \o nl \o r \o e : h \in CsvHdrs, nl \in CsvNL, r \in CsvRows, e \in {<<>>, <<"LF">>}}
